@@ -165,7 +165,10 @@ func reencodings(sig []byte) []namedSig {
 }
 
 // der = SEQUENCE{ tbs, AlgorithmIdentifier, BIT STRING sig }: the same object around another signature value
-func withSignature(der, newSig []byte) []byte {
+func withSignature(der, newSig []byte) []byte { return withSignatureBits(der, newSig, 0) }
+
+// withSignatureBits: the BIT STRING carries `unused` unused bits and the octets given
+func withSignatureBits(der, newSig []byte, unused byte) []byte {
 	var outer asn1.RawValue
 	if rest, err := asn1.Unmarshal(der, &outer); err != nil || len(rest) != 0 {
 		return nil
@@ -179,7 +182,7 @@ func withSignature(der, newSig []byte) []byte {
 		return nil
 	}
 	inner := append(append([]byte{}, tbs.FullBytes...), alg.FullBytes...)
-	inner = append(inner, derTLV(0x03, append([]byte{0}, newSig...))...)
+	inner = append(inner, derTLV(0x03, append([]byte{unused}, newSig...))...)
 	return derTLV(0x30, inner)
 }
 
@@ -203,6 +206,25 @@ func reencodedSigAccepted(der, sig []byte, check func([]byte) bool) string {
 		}
 		if check(d) {
 			return v.name
+		}
+	}
+	// the signature value shifted left by n bits inside a BIT STRING with n unused bits (a DER SEQUENCE starts with
+	// two zero bits, an RSA value often with some): right-aligned it is the signature again, but the value carried
+	// is no whole number of octets
+	for n := uint(1); n <= 7; n++ {
+		if len(sig) == 0 || sig[0]>>(8-n) != 0 {
+			break
+		}
+		sh := make([]byte, len(sig))
+		for i := range sig {
+			sh[i] = sig[i] << n
+			if i+1 < len(sig) {
+				sh[i] |= sig[i+1] >> (8 - n)
+			}
+		}
+		d := withSignatureBits(der, sh, byte(n))
+		if d != nil && check(d) {
+			return "bitstring-shifted-" + string(rune('0'+n))
 		}
 	}
 	return ""
